@@ -55,7 +55,7 @@ async def _suspending_handler(sess, man, event, rec, kw):
         await asyncio.sleep(0.35)
 
 
-def scenario(rng, rank):
+def scenario(rng, rank, stalls=False):
     # the adversarial per-tick order is switched on after the handshake (under it the 27-segment
     # initial transfer rarely survives the Unhandled/Packet race, which is not C07's subject)
     sc = EngineScenario(rng, rank="stable" if rank == "seeded" else rank, on_event=_suspending_handler)
@@ -64,6 +64,8 @@ def scenario(rng, rank):
         if rank == "seeded":
             s.loop.rank_mode = "seeded"
             s.loop.rank_rng = rng.random()
+        if stalls:
+            sc.stalls(env.rng(f"c07-stall-{rng.random()}"), p=0.04)
         items = junk_items(rng, sc.spa)
         ncb = [0]
         for a in sc.spa.struct.accessors.values():
@@ -168,7 +170,8 @@ def run(ctx):
     logs = []
     n = 16 if ctx.quick else 300
     for i in range(n):
-        logs.append(scenario(rng, ["stable", "perm", "reverse", "seeded"][i % 4]))
+        # every third scenario runs on an event loop that occasionally stalls (logged, see TStall)
+        logs.append(scenario(rng, ["stable", "perm", "reverse", "seeded"][i % 4], stalls=(i % 3 == 2)))
     verdicts, _ = tlc.validate("AsyncEngine_Trace", logs, "c07", CFG.format(**consts()), chunk=4, heap="2g", jobs=12)
     nontriv = set()
     for lg, v in zip(logs, verdicts):
